@@ -172,12 +172,11 @@ pub fn check_c16(job: &JobSpec, r: &JobResult, src: &mut SrcLines) -> Option<Vio
                 let io_fault = r.rlog.error_fired
                     || r.wlog.error_fired
                     || !r.wlog.eintr_calls.is_empty()
-                    || std::str::from_utf8(&job.source.0).is_err()
-                    || job.includes.iter().any(|f| match &f.kind {
-                        IncKind::Dir => true,
-                        IncKind::File(b) => std::str::from_utf8(&b.0).is_err(),
-                    })
-                    || job.faults.iter().any(|f| f.starts_with("include:"));
+                    // text that is not UTF-8 is damaged *data*, not an I/O failure: it must come back as a located
+                    // error (it did not before fix dd4cd1d); a directory in place of an include file, or an include
+                    // fault that changes what open() meets, is an I/O failure
+                    || job.includes.iter().any(|f| matches!(&f.kind, IncKind::Dir))
+                    || job.faults.iter().any(|f| f.starts_with("include:") && !f.starts_with("include:non_utf8") && !f.starts_with("include:corrupt") && !f.starts_with("include:truncated"));
                 if io_fault {
                     None
                 } else {
